@@ -66,6 +66,15 @@ CHECKS = {
                      "constructor raises, opt-out -> zeros).",
                 note="trusted: builders of C01-C06, overlay fold in mc/models.py; layers of a chain have equal virtual size; "
                      "VHDX undefined/unmapped states are not used under a parent"),
+    "C08": dict(level=MC, ref="DESIGN.md section 4 C08",
+                text="For every stream class (QCow2, snapshot view, VMDK sparse/flat/multi-extent, VHDX, VHD fixed/dynamic, "
+                     "VDI, HDS, Parallels StorageStream) every operation sequence up to depth 3 over a ~35-operation alphabet "
+                     "on one instance, every depth-2 sequence addressed to two instances over different images, and the suffix "
+                     "trees after ascending/descending/strided sweeps that fill and evict the 128-/4096-entry caches, are "
+                     "executed on the real objects and compared step by step with a history-free stream model, per buffer size.",
+                note="trusted: StreamModel in mc/models.py, builders of C01-C06, AlignedStream as a given dependency; histories "
+                     "longer than the depth bound are covered only by the sweeps; thread-safety not in scope",
+                technique="exhaustive history-tree exploration of the real stream objects against a history-free model"),
 }
 
 PENDING_REASON = "check not built yet in this session (planned in DESIGN.md section 4); not claimed until it runs"
